@@ -11,4 +11,15 @@ sys.dont_write_bytecode = True
 from simkit import runner  # noqa: E402
 
 if __name__ == "__main__":
-    sys.exit(runner.main(sys.argv[1:]))
+    try:
+        rc = runner.main(sys.argv[1:])
+    except SystemExit:
+        raise
+    except BaseException as e:  # noqa: BLE001
+        # an uncaught exception would end the interpreter with status 1 - the VIOLATION status.  Whatever goes wrong
+        # in the machinery itself (a failed build, a full disk, an interrupt) is a harness error: status 2.
+        import traceback
+        traceback.print_exc()
+        print(f"HARNESS-ERROR {type(e).__name__}: {e}")
+        rc = 2
+    sys.exit(rc)
